@@ -76,6 +76,12 @@ Next ==
             LET missing == {r \in DOMAIN reqs : Len(reqs[r].res) = 0 /\ ~reqs[r].abandoned} IN
             /\ bad' = IF missing = {} THEN bad ELSE Flag(ev, "NoResult_" \o reqs[CHOOSE r \in missing : TRUE].kind)
             /\ UNCHANGED <<hh, reqs, nc, held>>
+       [] ev.op = "Stress" ->
+            \* real goroutines racing Propose / ReadIndex against the stop of the shard: once everybody
+            \* has returned, no accepted request may be without its terminal result
+            /\ bad' = IF ev.val > 0 THEN Flag(ev, "NoResult_proposal_accepted_while_closing")
+                      ELSE IF ev.to > 0 THEN Flag(ev, "NoResult_read_accepted_while_closing") ELSE bad
+            /\ UNCHANGED <<hh, reqs, nc, held>>
        [] OTHER -> UNCHANGED <<hh, reqs, nc, held, bad>>
 
 Spec == Init /\ [][Next]_vars
